@@ -1,5 +1,6 @@
 import OmbottModel.Drv.Common
 import OmbottModel.Model.Router
+import OmbottModel.Model.RouterBuiltin
 /-!
 Protocol lines of the router model.  One line carries a whole history, so lines are stateless:
 
@@ -152,6 +153,12 @@ def runOps : St → Nat → List String → Option (List String)
 
 def handle : List String → Option String
   | "hist" :: ops => (runOps {} 0 ops).map fun outs => " ".intercalate outs
+  -- `router builtin <filter> <conf> <text>`: reference semantics of a built-in filter
+  --   → `~` | `<value text>:<consumed>`
+  | ["builtin", f, conf, text] =>
+    some (match Ombott.Router.Builtin.builtin (unhexStr f) (unhexStr conf) (unhexStr text) with
+      | none => "~"
+      | some (v, n) => s!"{hexStr v}:{n}")
   | _ => none
 
 end Drv.Router
